@@ -58,7 +58,7 @@ def gen():
         lambda t: [["auto", False], ["assign", t[0], t[1], "node"], ["update_names", t[2]]] + ([["update"]] if t[3] else []))
     block = st.one_of(op.map(lambda o: [o]), op.map(lambda o: [o]), probe)
     ops = st.lists(block, min_size=1, max_size=24).map(lambda bl: [o for b in bl for o in b][:40])
-    return st.fixed_dictionaries({"spec": gg.spec_strategy(), "ops": ops})
+    return st.fixed_dictionaries({"spec": gg.spec_strategy(), "ops": ops, "entry": st.sampled_from(["builder", "builder", "model"])})
 
 
 def eq_exact(a, b) -> bool:
@@ -138,7 +138,7 @@ def check_coherent(b: gg.Built, model, tag, det):
 def oracle(case):
     spec, ops = case["spec"], case["ops"]
     b = gg.Built(spec)
-    model = b.build()
+    model = b.build(entry=case.get("entry", "builder"))
     b.reset_counts()
     ref = Ref(b)
     det = lambda: f"spec={spec} ops={ops}"  # noqa: E731
